@@ -9,10 +9,11 @@ from common import enc
 from framework import Result
 
 ID = 'C11'
-LEAN_TARGETS = ['TexSoupProofs.Properties.C11', 'TexSoupProofs.Properties.C11Grammar']
+LEAN_TARGETS = ['TexSoupProofs.Properties.C11', 'TexSoupProofs.Properties.C11Grammar', 'TexSoupProofs.Properties.AllInputs']
 THEOREMS = ['TexSoup.C11.' + n for n in (
     'body_is_opaque', 'unclosed_is_diagnostic', 'end_marker_is_five_tokens', 'builtin_names_plain')] + [
-    'TexSoup.C11G.verbatim_is_one_text', 'TexSoup.C11G.skip_list_in_force', 'TexSoup.C11G.verbatim_wf_iff', 'TexSoup.C11G.no_skip_list_no_verbatim', 'TexSoup.C11G.other_name_is_interpreted']
+    'TexSoup.C11G.verbatim_is_one_text', 'TexSoup.C11G.skip_list_in_force', 'TexSoup.C11G.verbatim_wf_iff', 'TexSoup.C11G.no_skip_list_no_verbatim', 'TexSoup.C11G.other_name_is_interpreted',
+    'TexSoup.C11.verbatim_is_one_text_all', 'TexSoup.AllInputs.StrictInput.doc']
 PARTIAL = []
 TRUSTED = ['harness/props/c11.py (names, hostile bodies within the provisos, placements, expected shape)',
            'harness/gen_doc.py (documents with verbatim-like environments, expected tree)',
